@@ -115,6 +115,11 @@ func getFixture(t interface{ Fatalf(string, ...any) }) *fixture {
 			}
 			f.blobs = append(f.blobs, blob)
 		}
+		// evidence that cannot be replayed: a shared verifier must answer it AND every call after it
+		good := f.blobs[0]
+		flipped := append([]byte{}, good...)
+		flipped[len(flipped)/2] ^= 0x5A
+		f.blobs = append(f.blobs, good[:len(good)/2], []byte{}, []byte{0xA0}, flipped)
 		for i := range f.blobs {
 			var row, mrow []string
 			for j := -1; j < len(f.chals); j++ {
@@ -244,7 +249,10 @@ func runProgram(p program, call func(op vop) string) (ops []porcupine.Operation,
 		}(ti, th)
 	}
 	close(start)
-	wg.Wait()
+	if back, stacks := evid.Watch(wg.Wait); !back {
+		evid.Abort("hang-shared-object", map[string]any{"program": fmt.Sprintf("%+v", p), "stacks": stacks},
+			"a program of calls on one shared object did not finish within %v (each call alone returns in milliseconds): %+v", evid.HangLimit, p)
+	}
 	for i := range ops {
 		for j := range ops {
 			if i != j && ops[i].Call < ops[j].Return && ops[j].Call < ops[i].Return && ops[i].ClientId != ops[j].ClientId {
